@@ -413,6 +413,8 @@ type calleeInfo struct {
 	// closures: once every call is inlined the variable would be unused, so `_ = name` is added after its definition
 	keepAfter token.Pos
 	varName   string
+	// the body defers calls: it can only stand where the caller's own function ends right after the call
+	hasDefer bool
 }
 
 func (in *inliner) fileOf(pos token.Pos) (*ast.File, string) {
@@ -582,6 +584,8 @@ func (in *inliner) resolve(call *ast.CallExpr) (*calleeInfo, ast.Expr) {
 
 // eligible checks the callee's own shape.
 func (in *inliner) eligible(c *calleeInfo) string {
+	hasDefer := false
+	defer func() { c.hasDefer = hasDefer }()
 	if c.typ.TypeParams != nil && len(c.typ.TypeParams.List) > 0 {
 		return "type parameters"
 	}
@@ -603,7 +607,7 @@ func (in *inliner) eligible(c *calleeInfo) string {
 		}
 		switch x := n.(type) {
 		case *ast.DeferStmt:
-			reason = "defer"
+			hasDefer = true
 		case *ast.BranchStmt:
 			if x.Tok == token.GOTO {
 				reason = "goto"
@@ -1000,6 +1004,14 @@ func (in *inliner) fileEdits(f *ast.File, fname string, src []byte) []textEdit {
 			return true
 		}
 		tail := in.isTail(c, call, s0, parents)
+		if c.hasDefer {
+			// deferred calls of the callee run when it returns; inlined, they run when the caller returns — the same
+			// moment only if the call is the last thing the caller does
+			if why := lastInFunction(host, s0, call, parents, tail); why != "" {
+				refuse("defer: " + why)
+				return true
+			}
+		}
 		txt, results, why := in.expand(c, call, recvX, tail)
 		if why != "" {
 			refuse(why)
@@ -1111,6 +1123,37 @@ func (in *inliner) isTail(c *calleeInfo, call *ast.CallExpr, s0 ast.Stmt, parent
 	}
 	// a return inside a nested literal of the callee is not the callee's: nothing to adapt; labels are renamed as usual
 	return true
+}
+
+// lastInFunction: the statement holding the call is the final statement of its function's body, and the call is all
+// it does (a bare call, or the tail form of return).
+func lastInFunction(host, s0 ast.Stmt, call *ast.CallExpr, parents map[ast.Node]ast.Node, tail bool) string {
+	if host != s0 {
+		return "not a plain statement"
+	}
+	blk, ok := parents[s0].(*ast.BlockStmt)
+	if !ok || len(blk.List) == 0 || blk.List[len(blk.List)-1] != s0 {
+		return "not the last statement"
+	}
+	switch fn := parents[blk].(type) {
+	case *ast.FuncLit:
+		if fn.Body != blk {
+			return "not the function body"
+		}
+	case *ast.FuncDecl:
+		if fn.Body != blk {
+			return "not the function body"
+		}
+	default:
+		return "not the function body"
+	}
+	if es, isExpr := s0.(*ast.ExprStmt); isExpr && es.X == ast.Expr(call) {
+		return ""
+	}
+	if _, isRet := s0.(*ast.ReturnStmt); isRet && tail {
+		return ""
+	}
+	return "the call is not the whole statement"
 }
 
 func isVariadic(ft *ast.FuncType) bool {
